@@ -14,6 +14,8 @@ def plan(tier, seed):
         j = ch("C17", F, "h_dtypes_nullable", t, fun, shape=dict(map_column_first=nested), env=dict(VERIF_NESTED=nested))
         j["name"] += "[nested=%d]" % nested
         jobs.append(j)
+    jobs.append(ch("C17", F, "h_prealloc", t, ["api.ParquetFile.pre_allocate", "api._pre_allocate",
+                                               "api.ParquetFile._dtypes", "api.ParquetFile.check_categories"]))
     extra = dict(
         explanation="The real ParquetFile._dtypes runs under CrossHair (z3) on a handle built from real schema and "
                     "row-group thrift objects whose row counts, NULL counts and statistics state (absent / without "
